@@ -9,6 +9,7 @@ import (
 	"sort"
 	"strings"
 	"sync"
+	"sync/atomic"
 	"syscall"
 	"time"
 )
@@ -50,7 +51,7 @@ func (c *capped) Write(p []byte) (int, error) {
 	return len(p), nil
 }
 
-const timeLimit = 30 * time.Second
+var timeLimit = 30 * time.Second
 
 // regularFiles lists the regular files under dir (relative names, sorted).
 func regularFiles(dir string) []string {
@@ -74,8 +75,14 @@ func regularFiles(dir string) []string {
 // projects the observables.  outDir is the -o directory of the run; files that appear
 // under root and are not part of the tree count as written files too (a command line
 // without a usable -o writes to ./gen-go).
+var (
+	procNanos int64 // time spent waiting for the binary, summed over all runs
+	walkNanos int64 // time spent looking for written files
+)
+
 func execute(bin, root, outDir string, tree map[string]string, args []string) *RunRes {
 	res := &RunRes{argv: append([]string{"thriftgo"}, args...)}
+	tStart := time.Now()
 	ctx, cancel := context.WithTimeout(context.Background(), timeLimit)
 	defer cancel()
 	full := append([]string{"-c", `ulimit -v 4000000; exec "$0" "$@"`, bin}, args...)
@@ -103,6 +110,9 @@ func execute(bin, root, outDir string, tree map[string]string, args []string) *R
 		syscall.Kill(-cmd.Process.Pid, syscall.SIGKILL)
 		err = <-done
 	}
+	atomic.AddInt64(&procNanos, int64(time.Since(tStart)))
+	tWalk := time.Now()
+	defer func() { atomic.AddInt64(&walkNanos, int64(time.Since(tWalk))) }()
 	res.ExitCode = 0
 	if err != nil {
 		res.ExitCode = -1
